@@ -132,11 +132,27 @@ def run(ctx):
     # targeted: grid search (both directions, step sizes 1-2) with the strict maximum at the origin, one random initial position and a
     # few grid steps -- the first grid step is the best row, the later ones must not disturb it
     grid_targets = [(d_, st_) for d_ in ("diagonal", "orthogonal") for st_ in (1, 2) for _ in range(3)]
-    for i in range(n + len(grid_targets)):
-        name = names[i % len(names)] if i < n else "GridSearchOptimizer"
+    # targeted: the model-based optimizers (not in the quick rotation) with replacement False / True on a unimodal table and two random
+    # initial positions -- the best row is found by a model-based step and the candidate pool keeps changing afterwards
+    smbo_targets = [(nm_, rp_) for nm_ in gen.SLOW for rp_ in (False, True)] * (1 if ctx.quick else 3)
+    for i in range(n + len(grid_targets) + len(smbo_targets)):
+        name = names[i % len(names)] if i < n else ("GridSearchOptimizer" if i < n + len(grid_targets) else smbo_targets[i - n - len(grid_targets)][0])
         spec = dunit.general_spec(rng, name, max_calls=3, metrics=0, nonfinite=rng.choice([0, 0, 0.2, 0.6]),
                                   constraint=rng.random() < 0.3, sizes=(2, 3, 5), max_points=60, n_max=12)
-        if i >= n:
+        if i >= n + len(grid_targets):
+            rp_ = smbo_targets[i - n - len(grid_targets)][1]
+            spec = dunit.general_spec(rng, name, max_calls=1, metrics=0, nonfinite=0, constraint=False, sizes=(4, 5, 6), max_points=40, n_max=12, ndims=2)
+            dims_ = [len(v) for v in spec["space"].values()]
+            peak_ = tuple(rng.randrange(d__) for d__ in dims_)
+            spec["table"] = {p_: (-float(sum((a_ - b_) ** 2 for a_, b_ in zip(p_, peak_))), None) for p_ in spec["table"]}
+            spec["cfg"] = dict(replacement=rp_) if name != "LipschitzOptimizer" else {}
+            if name == "ForestOptimizer":
+                spec["cfg"]["tree_para"] = {"n_estimators": 5}
+            spec["init"] = {"random": 2}
+            spec["calls"][0]["n_iter"] = 2 + rng.randint(7, 10)
+            spec["calls"][0]["memory"] = False
+            spec["calls"][0].pop("memory_warm_start", None)
+        elif i >= n:
             d_, st_ = grid_targets[i - n]
             spec = dunit.general_spec(rng, name, max_calls=1, metrics=0, nonfinite=0, constraint=False, sizes=(3, 4, 5), max_points=130, n_max=12)
             spec["cfg"] = dict(direction=d_, step_size=st_)
